@@ -78,6 +78,7 @@ type State struct {
 	scratch bool
 	loopIn  map[string]Term
 	loopSnap map[int]*State
+	tableKeys map[string][]Term
 }
 
 func (s *State) clone() *State {
@@ -119,6 +120,7 @@ func (s *State) clone() *State {
 	for k, v := range s.entered {
 		n.entered[k] = v
 	}
+	n.tableKeys = s.tableKeys
 	if s.loopSnap != nil {
 		n.loopSnap = make(map[int]*State, len(s.loopSnap))
 		for k, v := range s.loopSnap {
@@ -170,6 +172,7 @@ type Unit struct {
 	usedContracts map[string]bool
 	sweep bool // zero-annotation sweep: only safety obligations matter
 	axiomsUsed map[string]bool
+	tracking map[string]string // when non-nil: components read while evaluating an opaque predicate body
 }
 
 func (u *Unit) note(s string) {
@@ -261,6 +264,9 @@ func (u *Unit) compDecl(comp, sort string) {
 
 // heapGet returns the current value of a component, creating the entry constant on first touch.
 func (u *Unit) heapGet(st *State, comp, sort string) Term {
+	if u.tracking != nil {
+		u.tracking[comp] = sort
+	}
 	if t, ok := st.heap[comp]; ok {
 		return t
 	}
